@@ -21,6 +21,16 @@ BOUNDS["C12"] = {
     "thorough": "n <= 5, both suites",
     "outside": "n > 5; executing chains of updates (covered by the inductive argument only); verification of the result through verify()",
 }
+BOUNDS["C01"] = {
+    "quick": "L in {0,1,2}, header None/empty/1/2 octets, messages of 0-2 symbolic octets, message list None for L = 0, both suites; sk, (A, e) and every oracle answer symbolic",
+    "thorough": "L <= 3, all 16 (L, header) combinations",
+    "outside": "L > 3, messages > 2 octets (their octets only reach the oracle), key generation (C10)",
+}
+BOUNDS["C02"] = {
+    "quick": "verify equivalence for the C01 shapes; bit flips (any of 640) for (L, header) in {(0,None),(1,1 octet),(2,empty)}",
+    "thorough": "L <= 3; six bit-flip shapes, both suites",
+    "outside": "other public key, cross-suite and cross-interface re-interpretation, message insert/delete/swap as explicit runs (they follow from the equivalence plus the random-oracle assumption)",
+}
 ASSUMPTIONS = {
     "*": [
         "bls12_381_plus is replaced by a prime-order bilinear group model (elements = discrete logs mod Q, Q in {13,31,251}); its real field/curve/pairing arithmetic and codecs are outside the claim",
@@ -34,6 +44,8 @@ ASSUMPTIONS = {
         "declared counts (n of update_signature) count as input size",
     ],
     "C09": [],
+    "C01": ["programmed random oracle: expand_message answers are unconstrained symbols (feature prog of the elliptic-curve model, one static struct)", "stub Generators::create -> fixed pure table", "sk + e != 0, B != identity (inversion of zero is assumed away in the model under Kani)"],
+    "C02": ["as C01", "distinct oracle queries have distinct answers (random-oracle / collision-resistance assumption) where an edit is argued to change B"],
     "C10": ["the reference transcription (harness/src/reference.rs) is validated against all fixture files of both suites on the real crates by `zkreplay fixtures` (60 values)"],
     "C12": ["stub Generators::create -> fixed pure table (2+3i)", "sk + e != 0 and B' != identity"],
 }
